@@ -5,7 +5,7 @@ import sym
 
 CONFIGS_QUICK = ["F_def", "F_all"]  # every configuration whose cfg-gated code the property depends on
 CONFIGS_THOROUGH = ["F_def", "F_all"]
-TECHNIQUE = 'static analysis: result/resume-state table extraction from MIR paths, byte-class typestate of recovery scans, who-may-construct for HTML-only items, quote table and blank predicate of the recovery scan, accessor sibling agreement'
+TECHNIQUE = 'static analysis: result/resume-state table extraction from MIR paths, byte-class typestate of recovery scans, who-may-construct for HTML-only items, quote table and blank predicate of the recovery scan, accessor sibling agreement, exhaustive evaluation (256 values) of every byte predicate of the tokeniser'
 EXPLANATION = (
     "Result <-> resume-state table of IterState::next extracted path by path (returned item variant, documented error "
     "position operand, state written) against the AttrError documentation; HTML mode only adds acceptance (Attr::Unquoted / "
@@ -219,6 +219,9 @@ def scan_start(p):
                 rf = a[3][0]
         if name_is(c[2], "index") and strip_wrappers(c[3][1])[0] == "agg" and strip_wrappers(c[3][1])[2] == "RangeFrom":
             sl = strip_wrappers(c[3][1])[3][0]
+        # `slice.iter().enumerate().skip(k)`: positions and items both start at k
+        if name_is(c[2], "Iterator::skip", "Iterator>::skip", "skip") and len(c[3]) > 1 and has_subterm(c[3][0], lambda s2: call_is(s2, "enumerate")):
+            rf = sl = c[3][1]
     return rf, sl
 
 
